@@ -6,17 +6,21 @@ Model of the symbol table an Einsum contributes, as /repo builds it today:
     - named sets `All Tensors Nothing Inputs Outputs Intermediates Shared Persistent`,
       one singleton per tensor of the Einsum, one singleton per rank variable (later keys of the
       dict literal override earlier ones);
-    - `Persistent` is built from the `persistent` flags of the Einsum's tensor accesses BEFORE the
-      workload-level `persistent_tensors` expression is applied to those flags, and is not
-      rebuilt afterwards;
-    - renames: the Einsum's own list, then what `renames.get_renames_for_einsum("default")`
+    - `Persistent` is first built from the `persistent` flags of the Einsum's tensor accesses (this
+      is what rename sources and the workload-level `persistent_tensors` expression itself see);
+      after `persistent_tensors` has been applied to the flags, the entry `Persistent` of the
+      evaluated renames is rebound to the tensors whose flag is now set — unless one of the
+      renames the Einsum evaluates is itself called `Persistent` (fix 629ad68);
+    - renames: the Einsum's own list, then what `renames.get_renames_for_einsum(self.name)`
       returns and is not yet named (tensor_accesses first, then rank_variables), evaluated in
       list order, each result visible to the later ones; then the named sets not shadowed by a
       rename; then an empty set for every workload tensor / rank variable not yet named.
-* `accelforge/frontend/renames.py : Renames.get_renames_for_einsum`, `Rename._eval_expressions`
-    - `einsum_name not in self.einsums` tests a `str` against a plain `list[EinsumRename]`:
-      always "not in", so the result starts from an empty `EinsumRename` and only the entries
-      named "default" are merged in.  The Einsum asks for "default" anyway.
+* `accelforge/frontend/renames.py : Renames.get_renames_for_einsum` (fix 9c6cc63),
+  `Rename._eval_expressions`
+    - starting from an empty `EinsumRename`, the entries named like the Einsum are merged in, in
+      list order, then the entries named "default", in list order; merging an entry appends its
+      tensor renames and then its rank-variable renames whose name is not `taken`, where `taken`
+      = the names already merged (both kinds), computed once before the entry is processed.
     - expected_count: `len(source) != expected_count` → EvaluationError.
 -/
 namespace AFV.Renames
@@ -116,26 +120,26 @@ def hasName (l : List Rename) (n : Name) : Bool := l.any (fun r => r.name == n)
 def mergeInto (dst src : List Rename) : List Rename :=
   src.foldl (fun acc r => if hasName acc r.name then acc else acc ++ [r]) dst
 
-/-- `einsum_name in self.einsums` with `self.einsums : list[EinsumRename]` and `einsum_name : str`:
-`list.__contains__` compares the string with model objects; never equal. -/
-def strInEinsumRenameList (_n : Name) (_l : List EinsumRename) : Bool := false
+/-- one entry of the top-level list merged into the result of `get_renames_for_einsum`:
+`taken = [names already merged, both kinds]` (computed before the entry is processed), then
+`for r in entry.tensor_accesses: if r.name not in taken: append`, same for `rank_variables`. -/
+def mergeEntry (acc er : EinsumRename) : EinsumRename :=
+  let taken := acc.tensorAccesses ++ acc.rankVariables
+  { acc with
+    tensorAccesses := acc.tensorAccesses ++ er.tensorAccesses.filter (fun r => !hasName taken r.name),
+    rankVariables := acc.rankVariables ++ er.rankVariables.filter (fun r => !hasName taken r.name) }
 
-/-- `Renames.get_renames_for_einsum`. -/
+/-- `Renames.get_renames_for_einsum`: `for wanted in (einsum_name, "default"): for einsum in
+self.einsums: if einsum.name == wanted: merge`. -/
 def getRenamesForEinsum (rs : List EinsumRename) (einsumName : Name) : EinsumRename :=
-  let start : EinsumRename :=
-    if strInEinsumRenameList einsumName rs then
-      -- unreachable in /repo today (`self.einsums[einsum_name]` on a list would raise TypeError)
-      { name := einsumName, tensorAccesses := [], rankVariables := [] }
-    else { name := einsumName, tensorAccesses := [], rankVariables := [] }
-  rs.foldl (fun acc er =>
-    if er.name != "default" then acc else
-      { acc with tensorAccesses := mergeInto acc.tensorAccesses er.tensorAccesses,
-                 rankVariables := mergeInto acc.rankVariables er.rankVariables }) start
+  let start : EinsumRename := { name := einsumName, tensorAccesses := [], rankVariables := [] }
+  let own := (rs.filter (fun er => er.name == einsumName)).foldl mergeEntry start
+  (rs.filter (fun er => er.name == "default")).foldl mergeEntry own
 
-/-- The rename list `Einsum._eval_expressions` evaluates: own renames, then the defaults not
-overridden.  NOTE the argument "default": the Einsum's own name is never looked up. -/
+/-- The rename list `Einsum._eval_expressions` evaluates: own renames, then the tensor renames and
+then the rank-variable renames of `get_renames_for_einsum(self.name)` that are not yet named. -/
 def effectiveRenames (rs : List EinsumRename) (e : Einsum) : List Rename :=
-  let d := getRenamesForEinsum rs "default"
+  let d := getRenamesForEinsum rs e.name
   mergeInto (mergeInto e.renames d.tensorAccesses) d.rankVariables
 
 /-- `RenameList._eval_expressions` + `Rename._eval_expressions`: in list order, each evaluated
@@ -162,8 +166,8 @@ def dictItems (kvs : List (Name × ISet)) : List (Name × ISet) :=
   let t := ofDictLiteral kvs
   (dedup (kvs.map (·.1))).filterMap (fun k => (lookup t k).map (fun v => (k, v)))
 
-/-- `evaluated.renames` at the end of `Einsum._eval_expressions` (before the workload-level
-persistent_tensors step, which does not touch it). -/
+/-- `evaluated.renames` at the end of the rename handling of `Einsum._eval_expressions`, before the
+workload-level `persistent_tensors` step. -/
 def evaluatedRenames (w : Workload) (rs : List EinsumRename) (e : Einsum) :
     Except Err (List (Name × ISet)) := do
   let st := renameSymbolTable w e
@@ -174,9 +178,8 @@ def evaluatedRenames (w : Workload) (rs : List EinsumRename) (e : Einsum) :
   let l3 := l2 ++ (w.rankVariables.filter (fun r => !present.contains r)).map (fun r => (r, rset e []))
   pure l3
 
-/-- `st.update(**{k.name: k.source for k in renames})` in `Spec._spec_eval_expressions`:
-the table the architecture is evaluated against for this Einsum. -/
-def einsumTable (w : Workload) (rs : List EinsumRename) (e : Einsum) : Except Err Table := do
+/-- the symbol table before the `persistent_tensors` step (`rename_st_with_evaluated`) -/
+def einsumTable1 (w : Workload) (rs : List EinsumRename) (e : Einsum) : Except Err Table := do
   let l ← evaluatedRenames w rs e
   pure (ofDictLiteral l)
 
@@ -188,15 +191,38 @@ def workloadPersistent (w : Workload) (rs : List EinsumRename) (e : Einsum) :
   match w.persistentTensors with
   | none => .ok []
   | some pt => do
-    let t ← einsumTable w rs e
+    let t ← einsumTable1 w rs e
     let r ← evalSetExpression t pt (some spaceTensor) none
     pure r.inst
 
-/-- tensor accesses of `e` that are persistent after evaluation (`t.persistent`). -/
+/-- tensor accesses of `e` that are persistent after evaluation (`t.persistent`), in access order
+(`oset(t.name for t in evaluated.tensor_accesses if t.persistent)`). -/
 def persistentAfterEval (w : Workload) (rs : List EinsumRename) (e : Einsum) :
     Except Err (List Name) := do
   let sel ← workloadPersistent w rs e
   pure (e.tensorNames.filter (fun t => e.flaggedPersistent.contains t || sel.contains t))
+
+/-- `evaluated.renames["Persistent"].source = InvertibleSet(instance=<flagged now>, …)` -/
+def rebindPersistent (e : Einsum) (p : List Name) (l : List (Name × ISet)) : List (Name × ISet) :=
+  l.map (fun kv => if kv.1 == "Persistent" then (kv.1, tset e p) else kv)
+
+/-- `evaluated.renames` when `Einsum._eval_expressions` returns: inside
+`if workload_persistent_tensors:` the entry `Persistent` is rebound to the tensors flagged now,
+`if not any(r.name == "Persistent" for r in self.renames)` (`self.renames` = the effective list). -/
+def finalRenames (w : Workload) (rs : List EinsumRename) (e : Einsum) :
+    Except Err (List (Name × ISet)) := do
+  let l ← evaluatedRenames w rs e
+  match w.persistentTensors with
+  | none => pure l
+  | some _ =>
+    let p ← persistentAfterEval w rs e
+    if hasName (effectiveRenames rs e) "Persistent" then pure l else pure (rebindPersistent e p l)
+
+/-- `st.update(**{k.name: k.source for k in renames})` in `Spec._spec_eval_expressions`:
+the table the architecture is evaluated against for this Einsum. -/
+def einsumTable (w : Workload) (rs : List EinsumRename) (e : Einsum) : Except Err Table := do
+  let l ← finalRenames w rs e
+  pure (ofDictLiteral l)
 
 /-- `Workload._eval_expressions`: every Einsum is evaluated (the first error aborts). -/
 def evalWorkload (w : Workload) (rs : List EinsumRename) :
